@@ -8,7 +8,7 @@ from sim.seams import Env
 PROPERTY = "C09"
 LEVEL = "exploration"
 SCENARIOS = {"vars": 1, "dict": 1}
-TIERS = {"quick": {"runs": 8000, "chunk": 25}, "thorough": {"runs": 200000, "chunk": 150}}
+TIERS = {"quick": {"runs": 8000, "chunk": 25}, "thorough": {"runs": 50000000, "wall_s": 600, "chunk": 150, "recheck": 16}}
 RULE = ("'vars': 1-6 hash-map variables with drawn formats and defaults, a generated program "
         "with statements a = b / a = b + k, and a history of Python set/get and program runs; "
         "'dict': tape-generated packed Key/Value structures (members of all sizes), a "
